@@ -194,7 +194,8 @@ fn probe_nonowner(arg: u64, sim: &Sim, obs: &Obs) -> ProbeResult {
             let has_native = obs.bal(x, &Fung::Native("ujunox".into())) >= 3;
             let mut attempts: Vec<(&'static str, &'static str, Op)> = vec![];
             for l in &ls {
-                if l.key_owner == *x {
+                // "does not own the record": also skip ids under which x files a record of its own
+                if l.key_owner == *x || obs.listing_at(x, l.id).is_some() {
                     continue;
                 }
                 let lc = lifecycle(l, now);
@@ -213,7 +214,7 @@ fn probe_nonowner(arg: u64, sim: &Sim, obs: &Obs) -> ProbeResult {
                 attempts.push(("withdraw_purchased", lc, Op::tx(x, m, msgs::withdraw_purchased(l.id), vec![])));
             }
             for b in &bs {
-                if b.key_owner == *x {
+                if b.key_owner == *x || obs.bucket_at(x, b.key_id).is_some() {
                     continue;
                 }
                 let lc = if b.fee.is_some() { "proceeds_bucket" } else { "fresh_bucket" };
